@@ -639,6 +639,7 @@ func specTruth(opname string, cell mcell) (bool, bool) {
 
 func ruleC12(prog *Program, rep *Report) {
 	ruleTruthMatrix(prog, rep)
+	ruleOpArity(prog, rep)
 	ruleRadix(prog, rep)
 	rulePresenceByNil(prog, rep) // a null member must reach the operators as null, not as Nothing
 	rulePrecAgree(prog, rep)     // "parentheses combine exactly as the script prints": parser and printer use one precedence relation
